@@ -47,7 +47,8 @@ if rf:
         out.append("| %s | %s | %s | %s | %s |" % (m["id"], m["property"], esc(m["what"])[:200], esc(m["check_result"])[:90], esc("; ".join(m.get("detail", [])))[:220] + (" — " + esc(m["comment"]) if m.get("comment") else "")))
     out.append("")
 out.append("### 12.4 Per-property build notes (as built; copied from design-notes/Cxx.md by tools/mkdesign.py)\n")
-for g in sorted(glob.glob(os.path.join(V, "design-notes", "C*.md"))):
+for g in sorted(glob.glob(os.path.join(V, "design-notes", "C*.md"))) + [os.path.join(V, "design-notes", "translator.md")]:
+    if not os.path.exists(g): continue
     pid = os.path.basename(g)[:-3]
     out.append("#### %s — as built\n" % pid)
     for line in open(g).read().split("\n"):
